@@ -203,7 +203,10 @@ func (self ValueList) Fields() (map[string]*Value, *VmInterrupt) {
 			if length == 0 {
 				return NewNoneOption(), nil
 			}
-			return NewValueOption((*self.Values)[length-1]), nil
+			// The option owns its value: wrapping the storage cell of the element itself would make a later
+			// assignment to that element change the option, too.
+			last := *(*self.Values)[length-1]
+			return NewValueOption(&last), nil
 		}),
 		"to_json":        MarshalToString(self),
 		"to_json_indent": MarshalIndentToString(self),
